@@ -114,33 +114,29 @@ theorem C05_fix_copy_chunks_establishes (n cc tc : Nat) (hcc : 0 < cc) (htc : 0 
 
 example : fixCopy 40 7 3 = 6 ∧ fixCopy 40 40 3 = 40 ∧ fixCopy 40 2 3 = 2 := by decide
 
-/-! ### store into an existing array -/
+/-! ### store into an existing array
 
-def storeStored (axes : List StoreAxis) : List (List Nat) := axes.map fun a => regular a.n a.tgt
-def storeWrite (axes : List StoreAxis) : List (List Nat) := axes.map fun a => regular a.n a.src
+`_store_array` (no region) as repaired by d416aac: when some source chunk is neither a multiple of the target
+chunk nor spans the axis, the source is first rechunked to the target chunks and the final rechunk op is
+re-targeted to the user's array.  `storeWriteOld` is the code before that commit; its counterexample is kept
+as documentation of what the fix repaired (and is replayed by the harness as a must-hold regression case). -/
 
-/-- Full-strength clause: storing an array with any source chunking into an existing array of any chunking
-is single-writer/whole.  The unchanged code falsifies it (`C05_store_mismatch_fails`). -/
-def C05_store_single_writer : Prop :=
-  ∀ axes : List StoreAxis, (∀ a ∈ axes, 0 < a.n ∧ 0 < a.src ∧ 0 < a.tgt) →
-    SingleWriter (storeStored axes) (storeWrite axes)
-
-/-- … it holds exactly when per axis the source chunk is a multiple of the target chunk or spans the axis —
-a condition `_store_array` does not test (it only rechunks for a *shard* mismatch). -/
+/-- geometry: tasks that write blocks of chunk size `src` into an array stored with chunk size `tgt` are
+single-writer/whole/covering exactly when per axis `src` is a multiple of `tgt` or spans the axis. -/
 theorem C05_store_single_writer_iff (axes : List StoreAxis)
     (hwf : ∀ a ∈ axes, 0 < a.n ∧ 0 < a.src ∧ 0 < a.tgt) :
-    SingleWriter (storeStored axes) (storeWrite axes) ↔ ∀ a ∈ axes, a.src % a.tgt = 0 ∨ a.n ≤ a.src := by
+    SingleWriter (axes.map fun a => regular a.n a.tgt) (storeWriteOld axes) ↔
+      ∀ a ∈ axes, a.src % a.tgt = 0 ∨ a.n ≤ a.src := by
   constructor
   · intro h a ha
     obtain ⟨hn, hs, ht⟩ := hwf a ha
-    have hne : ∀ g ∈ storeStored axes, 0 < g.length := by
+    have hne : ∀ g ∈ (axes.map fun a => regular a.n a.tgt), 0 < g.length := by
       intro g hg
-      simp only [storeStored, List.mem_map] at hg
+      simp only [List.mem_map] at hg
       obtain ⟨b, hb, rfl⟩ := hg
       obtain ⟨hn', _, ht'⟩ := hwf b hb
       exact (lt_regular_length _ _ hn' ht' 0).2 (by omega)
-    have hax := axes_of_singleWriter (storeStored axes) (storeWrite axes)
-      (by simp [storeStored, storeWrite]) hne h
+    have hax := axes_of_singleWriter _ (storeWriteOld axes) (by simp [storeWriteOld]) hne h
     have h1 := axesOK_map_inv _ _ axes hax a ha
     have h2 := refines_of_axis1 _ _ (regular_pos _ _ hn hs)
       (by rw [regular_sum _ _ hn ht, regular_sum _ _ hn hs]) h1
@@ -154,47 +150,96 @@ theorem C05_store_single_writer_iff (axes : List StoreAxis)
       (by rw [regular_sum _ _ hn ht, regular_sum _ _ hn hs])
       ((refines_regular_iff _ _ _ hn ht hs).2 (h a ha))
 
-/-- the part that holds: under the explicit extra hypothesis `src % tgt = 0 ∨ n ≤ src` on every axis
-(excludes e.g. source chunks (1,1) into target chunks (4,4)). -/
-theorem C05_store_single_writer_partial (axes : List StoreAxis)
-    (hwf : ∀ a ∈ axes, 0 < a.n ∧ 0 < a.src ∧ 0 < a.tgt)
-    (h : ∀ a ∈ axes, a.src % a.tgt = 0 ∨ a.n ≤ a.src) :
-    SingleWriter (storeStored axes) (storeWrite axes) :=
-  (C05_store_single_writer_iff axes hwf).2 h
+/-- **store into an existing array (repaired code)**: for every request — whatever the source chunking —
+the tasks that write the user's array are single-writer/whole/covering.  When the guard passes they are the
+source blocks; otherwise they are the copy blocks of the final stage of the inserted rechunk, which satisfy
+the planner invariant `hplan` (copy chunk = `consolidate_chunks` of the target chunks: property C14;
+validated by the harness on every traced store). -/
+theorem C05_store_single_writer_holds (axes : List StoreReq)
+    (hwf : ∀ a ∈ axes, 0 < a.n ∧ 0 < a.src ∧ 0 < a.tgt ∧ 0 < a.last)
+    (hplan : ∀ a ∈ axes, a.last % a.tgt = 0 ∨ a.n ≤ a.last) :
+    SingleWriter (storeStoredFixed axes) (storeWriteFixed axes) := by
+  unfold storeStoredFixed storeWriteFixed
+  split
+  · rename_i hg
+    have hg' := (storeGuard_iff axes).1 hg
+    apply singleWriter_of_axes
+    apply axesOK_map
+    intro a ha
+    obtain ⟨hn, hs, ht, _⟩ := hwf a ha
+    exact axis1_of_refines _ _ (regular_pos _ _ hn ht)
+      (by rw [regular_sum _ _ hn ht, regular_sum _ _ hn hs])
+      ((refines_regular_iff _ _ _ hn ht hs).2 (hg' a ha))
+  · apply singleWriter_of_axes
+    apply axesOK_map
+    intro a ha
+    obtain ⟨hn, _, ht, hl⟩ := hwf a ha
+    exact axis1_of_refines _ _ (regular_pos _ _ hn ht)
+      (by rw [regular_sum _ _ hn ht, regular_sum _ _ hn hl])
+      ((refines_regular_iff _ _ _ hn ht hl).2 (hplan a ha))
 
-example : (∀ a ∈ [(⟨8, 4, 2⟩ : StoreAxis), ⟨5, 7, 3⟩], 0 < a.n ∧ 0 < a.src ∧ 0 < a.tgt) ∧
-    (∀ a ∈ [(⟨8, 4, 2⟩ : StoreAxis), ⟨5, 7, 3⟩], a.src % a.tgt = 0 ∨ a.n ≤ a.src) := by decide
+/-- the old trigger under the repaired code: 4×4, source chunks (1,1), target chunks (4,4); the guard fails,
+the inserted rechunk copies with chunks (4,4): one task writes the one stored chunk, whole. -/
+def storeRegression : List StoreReq := [⟨4, 1, 4, 4⟩, ⟨4, 1, 4, 4⟩]
+
+example : (∀ a ∈ storeRegression, 0 < a.n ∧ 0 < a.src ∧ 0 < a.tgt ∧ 0 < a.last) ∧
+    (∀ a ∈ storeRegression, a.last % a.tgt = 0 ∨ a.n ≤ a.last) ∧ storeGuard storeRegression = false := by decide
+example : taskWrites (storeStoredFixed storeRegression) (storeWriteFixed storeRegression) [0, 0]
+    = some [([0, 0], true)] := by decide
+/-- a request that passes the guard (no rechunk inserted) -/
+example : storeGuard [⟨8, 4, 2, 1⟩, ⟨5, 7, 3, 1⟩] = true := by decide
 
 /-- sharded target: `_store_array` first rechunks the source to the shard shape, so source chunk = stored
 object (shard) size and the store is single-writer/whole. -/
 theorem C05_store_sharded_single_writer (axes : List StoreAxis)
     (hwf : ∀ a ∈ axes, 0 < a.n ∧ 0 < a.src ∧ 0 < a.tgt) (h : ∀ a ∈ axes, a.src = a.tgt) :
-    SingleWriter (storeStored axes) (storeWrite axes) :=
-  C05_store_single_writer_partial axes hwf (fun a ha => Or.inl (by rw [h a ha]; exact Nat.mod_self _))
+    SingleWriter (axes.map fun a => regular a.n a.tgt) (storeWriteOld axes) :=
+  (C05_store_single_writer_iff axes hwf).2 (fun a ha => Or.inl (by rw [h a ha]; exact Nat.mod_self _))
 
-/-- witness replayed by the harness: a 4×4 array with chunks (1,1) stored into an existing array with
-chunks (4,4): 16 tasks each partially write the one stored chunk. -/
+/-- OLD variant (before d416aac), kept as documentation: without the guard the clause "every store into an
+existing array is single-writer" was false. -/
+def C05_store_single_writer_old : Prop :=
+  ∀ axes : List StoreAxis, (∀ a ∈ axes, 0 < a.n ∧ 0 < a.src ∧ 0 < a.tgt) →
+    SingleWriter (axes.map fun a => regular a.n a.tgt) (storeWriteOld axes)
+
+/-- the witness that the fix repaired: a 4×4 array with chunks (1,1) stored into an existing array with
+chunks (4,4): 16 tasks each partially wrote the one stored chunk. -/
 def storeWitness : List StoreAxis := [⟨4, 1, 4⟩, ⟨4, 1, 4⟩]
 
-example : taskWrites (storeStored storeWitness) (storeWrite storeWitness) [2, 3] = some [([0, 0], false)] := by
-  decide
+example : taskWrites (storeWitness.map fun a => regular a.n a.tgt) (storeWriteOld storeWitness) [2, 3]
+    = some [([0, 0], false)] := by decide
 
-theorem C05_store_mismatch_fails : ¬ C05_store_single_writer := by
+theorem C05_store_old_mismatch_fails : ¬ C05_store_single_writer_old := by
   intro h
   have h1 := h storeWitness (by decide)
   have h2 := (C05_store_single_writer_iff storeWitness (by decide)).1 h1
   revert h2
   decide
 
-/-! ### region stores -/
+/-! ### region stores
+
+`_store_array(region=…)` as repaired by ba97b91: slices are validated (`regionAccept`), and the source is
+rechunked to the target chunks when they differ (`RegionAxis.effective`).  `regionTaskOK` on the axes as given
+is the code before that commit. -/
 
 def RegionWF (r : RegionAxis) : Prop := 0 < r.ct ∧ 0 < r.cs ∧ r.a < r.b ∧ r.b ≤ r.nt
 
 def regionStored (axes : List RegionAxis) : List (List Nat) := axes.map fun r => regular r.nt r.ct
 
-/-- The part of the region store that always holds: its tasks are exactly the target chunks that meet the
-region box, each once, and the task with out coords `js` writes exactly target chunk `js`, whole (write
-proxy chunks = target chunks). -/
+/-- an accepted region slice has step `None`/1, is the `slice.indices` normalisation of the request, lies
+inside the target and passes the alignment test (whatever the source chunks). -/
+theorem C05_region_accept_spec (nt ct cs : Nat) (s : SliceReq) (a b : Nat)
+    (h : regionAccept nt ct s = some (a, b)) :
+    (s.step = none ∨ s.step = some 1) ∧ (a, b) = sliceIndices nt s ∧ a ≤ nt ∧ b ≤ nt ∧
+      RegionAxis.aligned ⟨nt, ct, a, b, cs⟩ = true :=
+  regionAccept_spec nt ct cs s a b h
+
+example : regionAccept 16 4 ⟨some (-12), none, none⟩ = some (4, 16) ∧ regionAccept 16 4 ⟨some 2, some 8, none⟩ = none ∧
+    regionAccept 16 4 ⟨some 0, some 8, some 2⟩ = none ∧ regionAccept 10 4 ⟨some 8, some 99, some 1⟩ = some (8, 10) := by
+  decide
+
+/-- The tasks of a region store are exactly the target chunks that meet the region box, each once, and the
+task with out coords `js` writes exactly target chunk `js`, whole (write proxy chunks = target chunks). -/
 theorem C05_region_tasks_single_writer (axes : List RegionAxis) (hwf : ∀ r ∈ axes, RegionWF r) :
     regionTasks axes = writesN (regionStored axes) (axes.map fun r => (r.a, r.b)) ∧
     (regionTasks axes).Nodup ∧
@@ -209,16 +254,10 @@ theorem C05_region_tasks_single_writer (axes : List RegionAxis) (hwf : ∀ r ∈
     obtain ⟨hct, _, hab, hb⟩ := hwf r hr
     exact regular_pos _ _ (by omega) hct
 
-/-- Full-strength clause: every region the alignment test of `_store_array` accepts gives well-formed tasks
-(the source block a task reads exists and is exactly the data of the chunk interval it writes, inside the
-region).  The unchanged code falsifies it (`C05_region_mismatch_fails`). -/
-def C05_region_store_ok : Prop :=
-  ∀ axes : List RegionAxis, (∀ r ∈ axes, RegionWF r ∧ r.aligned = true) →
-    ∀ js ∈ regionTasks axes, regionTaskOK axes js = true
-
-/-- … it holds under the explicit extra hypothesis that per axis the source chunk equals the target chunk,
-or the region is a single block of both (excludes e.g. source chunk 8 into target chunk 4). -/
-theorem C05_region_single_writer_partial (axes : List RegionAxis)
+/-- geometry: when per axis the source chunk equals the target chunk (or the region is a single block of
+both) every task of an aligned region is well-formed: its source block exists, is exactly the data of the
+chunk interval it writes, and that interval lies inside the region. -/
+theorem C05_region_tasks_ok_of_equal_chunks (axes : List RegionAxis)
     (hwf : ∀ r ∈ axes, RegionWF r ∧ r.aligned = true)
     (hsrc : ∀ r ∈ axes, r.cs = r.ct ∨ (r.b - r.a ≤ r.cs ∧ r.b - r.a ≤ r.ct)) :
     ∀ js ∈ regionTasks axes, regionTaskOK axes js = true := by
@@ -227,17 +266,41 @@ theorem C05_region_single_writer_partial (axes : List RegionAxis)
   obtain ⟨⟨hct, hcs, hab, hb⟩, hal⟩ := hwf r hr
   exact region_taskOK r hct hcs hab hb hal (hsrc r hr) j hj
 
-example : (∀ r ∈ [(⟨16, 4, 4, 12, 4⟩ : RegionAxis), ⟨10, 4, 8, 10, 5⟩], RegionWF r ∧ r.aligned = true) ∧
-    (∀ r ∈ [(⟨16, 4, 4, 12, 4⟩ : RegionAxis), ⟨10, 4, 8, 10, 5⟩],
-      r.cs = r.ct ∨ (r.b - r.a ≤ r.cs ∧ r.b - r.a ≤ r.ct)) := by
-  simp only [RegionWF]; decide
+/-- **region store (repaired code)**: for every accepted non-empty region and *any* source chunking, every
+task is well-formed — the inserted rechunk makes the source grid agree with the target grid on the region. -/
+theorem C05_region_store_ok_holds (axes : List RegionAxis)
+    (hwf : ∀ r ∈ axes, RegionWF r ∧ r.aligned = true) :
+    ∀ js ∈ regionTasks axes, regionTaskOK (axes.map RegionAxis.effective) js = true := by
+  intro js hjs
+  rw [← regionTasks_effective] at hjs
+  refine C05_region_tasks_ok_of_equal_chunks (axes.map RegionAxis.effective) ?_ ?_ js hjs
+  · intro r hr
+    simp only [List.mem_map] at hr
+    obtain ⟨r0, hr0, rfl⟩ := hr
+    obtain ⟨⟨hct, hcs, hab, hb⟩, hal⟩ := hwf r0 hr0
+    exact ⟨⟨hct, (effective_chunks_agree r0 hct hcs hab).1, hab, hb⟩, hal⟩
+  · intro r hr
+    simp only [List.mem_map] at hr
+    obtain ⟨r0, hr0, rfl⟩ := hr
+    obtain ⟨⟨hct, hcs, hab, _⟩, _⟩ := hwf r0 hr0
+    exact (effective_chunks_agree r0 hct hcs hab).2
 
-/-- witness replayed by the harness: 8 elements with source chunk 8 stored into `[0, 8)` of a 16-element
-target with chunk 4: the second task asks for source block 1, which does not exist (IndexError mid-run),
-the first writes half of its source block. -/
+/-- the old trigger (and a 2-d request with differing chunks) satisfy the hypotheses -/
+example : ∀ r ∈ [(⟨16, 4, 0, 8, 8⟩ : RegionAxis), ⟨10, 4, 8, 10, 5⟩, ⟨10, 4, 0, 8, 7⟩], RegionWF r ∧ r.aligned = true := by
+  simp only [RegionWF]; decide
+example : regionTaskOK ([(⟨16, 4, 0, 8, 8⟩ : RegionAxis)].map RegionAxis.effective) [1] = true := by decide
+
+/-- OLD variant (before ba97b91), kept as documentation: without the inserted rechunk the clause "every
+aligned region gives well-formed tasks" was false. -/
+def C05_region_store_ok_old : Prop :=
+  ∀ axes : List RegionAxis, (∀ r ∈ axes, RegionWF r ∧ r.aligned = true) →
+    ∀ js ∈ regionTasks axes, regionTaskOK axes js = true
+
+/-- the witness that the fix repaired: 8 elements with source chunk 8 stored into `[0, 8)` of a 16-element
+target with chunk 4: the second task asked for source block 1, which did not exist (IndexError mid-run). -/
 def regionWitness : List RegionAxis := [⟨16, 4, 0, 8, 8⟩]
 
-theorem C05_region_mismatch_fails : ¬ C05_region_store_ok := by
+theorem C05_region_old_mismatch_fails : ¬ C05_region_store_ok_old := by
   intro h
   have h1 := h regionWitness (by simp only [RegionWF]; decide) [1] (by decide)
   revert h1
